@@ -94,9 +94,10 @@ type SpecFunc struct {
 }
 
 type GhostField struct {
-	Owner string // Go type name, e.g. Conn or bufio.Reader
-	Name  string
-	Type  string
+	Owner    string // Go type name, e.g. Conn or bufio.Reader
+	Name     string
+	Type     string
+	Volatile bool // not subject to frame conditions: every contracted call may change it (callers forget its value)
 }
 
 type Axiom struct {
@@ -124,6 +125,15 @@ type SpecDB struct {
 	Lemmas    []*Lemma
 	Consts    map[string]int64
 	Owners    []OwnerDecl
+	Classes   map[string]*StrClass
+	ClassOrder []string
+}
+
+// StrClass: a character class predicate on strings, "every octet satisfies P(c)".
+type StrClass struct {
+	Name string
+	P    Expr // over the octet c
+	Src  string
 }
 
 type OwnerDecl struct {
@@ -132,7 +142,7 @@ type OwnerDecl struct {
 }
 
 func newSpecDB() *SpecDB {
-	return &SpecDB{Contracts: map[string]*Contract{}, Funcs: map[string]*SpecFunc{}, Consts: map[string]int64{}}
+	return &SpecDB{Contracts: map[string]*Contract{}, Funcs: map[string]*SpecFunc{}, Consts: map[string]int64{}, Classes: map[string]*StrClass{}}
 }
 
 var reClauseHead = regexp.MustCompile(`^(requires|ensures|invariant)\s+((?:@[A-Z0-9,]+\s+)?)((?:[A-Za-z_][A-Za-z0-9_\-]*:\s+)?)(.*)$`)
@@ -232,7 +242,7 @@ func (db *SpecDB) loadSpecFile(path string, prefix string) error {
 		lines = append(lines, lineT{strings.TrimSpace(t), i + 1})
 	}
 	// join continuation lines: a line that does not start with a directive keyword continues the previous one
-	kw := regexp.MustCompile(`^(contract|stub|rec func|func|ufunc|ghost field|const|axiom|lemma|owner|prop|requires|ensures|invariant|modifies|fresh|loop|trusted|maypanic|pure|nooverflow|inline|thread|use|by induction|ghostset|also|split|before|onrecv|join|recv|backedge)\b`)
+	kw := regexp.MustCompile(`^(contract|stub|rec func|func|ufunc|ghost field|const|axiom|lemma|owner|strclass|prop|requires|ensures|invariant|modifies|fresh|loop|trusted|maypanic|pure|nooverflow|inline|thread|use|by induction|ghostset|also|split|before|onrecv|join|recv|backedge)\b`)
 	var joined []lineT
 	for _, l := range lines {
 		if kw.MatchString(l.text) || len(joined) == 0 {
@@ -291,6 +301,20 @@ func (db *SpecDB) loadSpecFile(path string, prefix string) error {
 			db.FuncOrder = append(db.FuncOrder, sf.Name)
 			lastFunc = sf
 			cur, curLoop, curLemma = nil, nil, nil
+		case strings.HasPrefix(t, "strclass "):
+			rest := strings.TrimPrefix(t, "strclass ")
+			i := strings.Index(rest, "=")
+			if i < 0 {
+				return fail(l, "strclass NAME(c) = predicate")
+			}
+			name := strings.TrimSpace(strings.TrimSuffix(strings.TrimSpace(rest[:i]), "(c)"))
+			e, err := parseExpr(rest[i+1:])
+			if err != nil {
+				return fail(l, "%v", err)
+			}
+			db.Classes[name] = &StrClass{Name: name, P: stripParens(e), Src: strings.TrimSpace(rest[i+1:])}
+			db.ClassOrder = append(db.ClassOrder, name)
+			cur, curLoop, curLemma = nil, nil, nil
 		case strings.HasPrefix(t, "ghost field "):
 			rest := strings.TrimPrefix(t, "ghost field ")
 			i := strings.Index(rest, ":")
@@ -302,7 +326,13 @@ func (db *SpecDB) loadSpecFile(path string, prefix string) error {
 			if j < 0 {
 				return fail(l, "bad ghost field owner")
 			}
-			db.Ghosts = append(db.Ghosts, &GhostField{Owner: on[:j], Name: on[j+1:], Type: strings.TrimSpace(rest[i+1:])})
+			gty := strings.TrimSpace(rest[i+1:])
+			vol := false
+			if strings.HasSuffix(gty, " volatile") {
+				vol = true
+				gty = strings.TrimSpace(strings.TrimSuffix(gty, " volatile"))
+			}
+			db.Ghosts = append(db.Ghosts, &GhostField{Owner: on[:j], Name: on[j+1:], Type: gty, Volatile: vol})
 			cur, curLoop, curLemma = nil, nil, nil
 		case strings.HasPrefix(t, "const "):
 			fs := strings.Fields(strings.ReplaceAll(t, "=", " = "))
